@@ -172,7 +172,7 @@ Theorem uniform_partition_placement_refuted :
     nodes_on_bdry (mkAxis xmin xmax (ugrid_axis 1 xmin xmax (true, true))) <> (true, true).
 Proof. exact uniform_single_point_placement_refuted. Qed.
 
-(* T1. Parameter completion in uniform_partition: whichever ONE of min_pt, max_pt, shape,
+(* T1. Completion of the missing argument in uniform_partition: whichever ONE of min_pt, max_pt, shape,
    cell_sides is left out (or none), a consistent quadruple
         xmax = xmin + (n - (b_l+b_r)/2) * dx,  dx <> 0
    is completed to the same (xmin, xmax, n).  [rnd] is Python's round(); all that is used is
